@@ -167,7 +167,18 @@ def c01(case, lines):
     return fails
 
 
-def c02(case, lines, exact=False):
+def session_gaps(case):
+    """per session of the case text (in order): were there external changes (set/del) since the previous session?"""
+    gaps, changed = [], False
+    for l in case.body:
+        w = l.split(" ")[0]
+        if w in ("set", "del"): changed = True
+        elif w == "session":
+            gaps.append(changed); changed = False
+    return gaps
+
+
+def c02(case, lines, exact=False, idem_sessions=False):
     fails, items = [], parse(lines)
     for i, (k, s) in enumerate(items):
         if k != "sess": continue
@@ -195,6 +206,22 @@ def c02(case, lines, exact=False):
             extra = sorted(set(per) - ex)
             if extra and items[i + 1][1]["abort"] is None:
                 fails.append(f"session {i}: executed {extra} which the from-scratch build of the current state does not execute (exact checkers)")
+    # a whole session repeated with nothing changed in between executes nothing (programs that are well-formed apart
+    # from an injected panic; sessions without bottom-up build and without checker errors)
+    if idem_sessions:
+        gaps = session_gaps(case)
+        sess = [s for k, s in items if k == "sess"]
+        if len(gaps) == len(sess):
+            for i in range(1, len(sess)):
+                a, b = sess[i - 1], sess[i]
+                if gaps[i] or any(o.text.startswith("bu") or o.text == "reqknown" for o in a.ops + b.ops): continue
+                if not a.ops or not all(o.result and o.result.startswith("out ") for o in a.ops): continue
+                if any(" error(" in e for o in b.ops for e in o.ev): continue
+                done = {o.text for o in a.ops}
+                for o in b.ops:
+                    if o.text in done:
+                        ex = [e for e in o.ev if e.startswith("execute_start")]
+                        if ex: fails.append(f"session {i}: '{o.text}' repeated with nothing changed since the previous session, which returned, executed {ex}")
     # validation order = creation order
     prev_store = None
     for i, (k, s) in enumerate(items):
